@@ -4,7 +4,7 @@ from __future__ import annotations
 import itertools
 import random
 
-from .. import models, pdugen, prep, wire
+from .. import models, pdugen, prep, vclock, wire
 from ..world import PROTO_EXC, World
 
 PROP = "C08"
@@ -25,8 +25,9 @@ ASSUMPTIONS = [
 LAG = 2
 
 
-def drive(w: World, naks: dict[int, list[bytes]], max_calls: int = 400):
-    """naks: reference call index -> NAK PDUs delivered (each in its own call) before that call."""
+def drive(w: World, naks: dict[int, list[bytes]], max_calls: int = 400, tick: bool = False):
+    """naks: reference call index -> NAK PDUs delivered (each in its own call) before that call.  tick: the positive ACK timer of the EOF
+    expires just before the first NAK that finds the sender waiting for the ACK (EOF) is delivered."""
     S = w.S
     tc = prep.tx_conf(w)
     recs = []
@@ -64,8 +65,13 @@ def drive(w: World, naks: dict[int, list[bytes]], max_calls: int = 400):
         recs.append(rec)
         return rec
 
+    ticked = 0
     while ref_idx < max_calls:
         for nk in naks.get(ref_idx, []):
+            if tick and not ticked and S.h.step.name == "WAITING_FOR_EOF_ACK":
+                vclock.use(w.clock)
+                vclock.advance_to_next_expiry()
+                ticked = 1
             call(nk, "nak")
         if S.h.state.name == "IDLE":
             break
@@ -79,6 +85,7 @@ def drive(w: World, naks: dict[int, list[bytes]], max_calls: int = 400):
                 raw, what, fin = pdugen.raw("FIN", tc), "fin", True
         call(raw, what)
         ref_idx += 1
+    w.ticked = ticked
     return recs, md_raw
 
 
@@ -146,6 +153,9 @@ def gen_cases(tier, seed):
             cl = classes(p, size, seg)
             for name, rq in cl.items():
                 cases.append({"cfg": cfg, "naks": {k: [[list(rq)]]}, "names": [name]})
+                if r["step"] == "WAITING_FOR_EOF_ACK":
+                    # the same NAK handed over in the first call after the EOF's positive ACK timer expired
+                    cases.append({"cfg": cfg, "naks": {k: [[list(rq)]]}, "names": [name], "tick": True})
             if tier == "thorough" or k % 3 == 1:
                 for (n1, r1), (n2, r2) in itertools.permutations(cl.items(), 2):
                     cases.append({"cfg": cfg, "naks": {k: [[list(r1), list(r2)]]}, "names": [n1, n2]})
@@ -179,6 +189,8 @@ def gen_cases(tier, seed):
                     names.append("random")
             naks.setdefault(k, []).append(reqs)
         cases.append({"cfg": cfg, "naks": naks, "names": names})
+        if rng.random() < 0.3:
+            cases[-1]["tick"] = True
     return cases
 
 
@@ -222,7 +234,9 @@ def run_case(case):
         size, data = len(w.data), w.data
         eff = min(cfg["seg"], models.max_fd_payload(cfg["maxpkt"], cfg["src_idw"], 2, cfg["crc"]))
         naks = {k: [pdugen.raw("NAK", tc, {"scope": (0, max([e for _, e in rq] + [0])), "reqs": rq}) for rq in lst] for k, lst in naks_spec.items()}
-        recs, md_raw = drive(w, naks)
+        recs, md_raw = drive(w, naks, tick=bool(case.get("tick")))
+        if getattr(w, "ticked", 0):
+            obs["naks_delivered_at_eof_ack_timer_expiry"] = 1
         # split the stream
         original = []
         nak_iter = {k: list(v) for k, v in naks_spec.items()}
@@ -314,6 +328,17 @@ def run_case(case):
                     continue
                 original.append(raw)
         ref_stream = [raw for r in ref for raw in r["out"]]
+        if getattr(w, "ticked", 0):
+            # the expired timer re-sends the EOF PDU once (same bytes): not part of the reference stream
+            eofs = [i for i, x in enumerate(original) if wire.kind_of(x) == "EOF"]
+            if len(eofs) == 2 and original[eofs[0]] == original[eofs[1]]:
+                del original[eofs[1]]
+                obs["eof_resend_next_to_retransmission"] = 1
+            elif len(eofs) == 1:
+                # the ACK (EOF) arrived in the first call which looked at the timer (a refused NAK does not): no re-send
+                obs["eof_ack_arrived_before_timer_was_checked"] = 1
+            else:
+                viol.append({"clause": "eof-not-re-sent-once-unchanged-at-timer-expiry", "eofs": [wire.short(wire.describe(original[i])) for i in eofs]})
         if original != ref_stream:
             j = next((i for i, (a, b) in enumerate(zip(original, ref_stream)) if a != b), min(len(original), len(ref_stream)))
             viol.append({"clause": "original-stream-differs-from-reference-run", "first_difference_at_pdu": j,
@@ -377,5 +402,5 @@ def judge_response(retrans, reqs, data, eff, md_ref, prefix_ok):
     return None
 
 
-REQUIRED = {"responses_checked": 200, "metadata_retransmissions_checked": 20, "metadata_with_options_retransmissions_checked": 10, "naks_with_invalid_request": 100, "naks_at_step_SENDING_FILE_DATA": 50,
+REQUIRED = {"naks_delivered_at_eof_ack_timer_expiry": 100, "eof_resend_next_to_retransmission": 50, "responses_checked": 200, "metadata_retransmissions_checked": 20, "metadata_with_options_retransmissions_checked": 10, "naks_with_invalid_request": 100, "naks_at_step_SENDING_FILE_DATA": 50,
             "naks_at_step_WAITING_FOR_EOF_ACK": 50, "naks_at_step_WAITING_FOR_FINISHED": 50, "original_streams_equal_to_reference": 200}
